@@ -56,16 +56,16 @@ def obligations(tier):
     for tags in ([[1, 1, 0]] if q else [[1, 1, 0], [1, 2, 0], [0, 1, 2]]):
         obs.append(S.SOb('C01.opt[G_en_punct,n=3,tags=1:%s]' % tags, gp, 3, S.one_tag(3, gp['T'], tags), pruning=1, penalty='sym'))
     if not q:
-        obs.append(S.SOb('C01.opt[G_en_punct,n=4,tags=1:[0,1,2,0]]', gp, 4, S.one_tag(4, gp['T'], [0, 1, 2, 0]), pruning=1, penalty='sym', max_seconds=700))
+        obs.append(S.SOb('C01.opt[G_en_punct,n=4,tags=1:[0,1,2,0]]', gp, 4, S.one_tag(4, gp['T'], [0, 1, 2, 0]), pruning=1, penalty='sym', max_seconds=450))
     if not q:
         gu4 = GUn(4)
-        obs.append(S.SOb('C01.opt[GU,n=4,tags=1]', gu4, 4, S.one_tag(4, 4), pruning=1, penalty='0', max_seconds=800))
+        obs.append(S.SOb('C01.opt[GU,n=4,tags=1]', gu4, 4, S.one_tag(4, 4), pruning=1, penalty='0', max_seconds=500))
         # second free tag on one word (n = 3)
         for w in (0, 1, 2):
             below = [(i, c) for i in range(3) for c in range(3) if c != i and not (i == w and c == (i + 1) % 3)]
             obs.append(S.SOb('C01.opt[GU,n=3,tags=1+second tag on word %d]' % w, gu3, 3, below, pruning=2, penalty='0', max_seconds=500))
         g = S.real_grammar('en')
-        obs.append(S.SOb('C01.opt[G_en,n=4,tags=1:[3,1,2,0]]', g, 4, S.one_tag(4, g['T'], [3, 1, 2, 0]), pruning=1, penalty='sym', max_seconds=800))
+        obs.append(S.SOb('C01.opt[G_en,n=4,tags=1:[3,1,2,0]]', g, 4, S.one_tag(4, g['T'], [3, 1, 2, 0]), pruning=1, penalty='sym', max_seconds=500))
     return obs
 
 
